@@ -23,7 +23,8 @@ ASSUMPTIONS = ["SchedModel (vp/model.py) is the specification of the pending set
                "node.cpp does (advance() only when scheduled now)"]
 FLOORS = {"native_gated_wakeups_with_pending_requests": {"quick": 200, "thorough": 4000}, "unit_sequences": {"quick": 20000, "thorough": 500000}, "unit_queries": {"quick": 60000, "thorough": 2000000},
           "graph_sched_queries": {"quick": 3000, "thorough": 40000}, "graph_wakeups": {"quick": 800, "thorough": 10000},
-          "dynamic_child_scheduler_requests_honoured": {"quick": 300, "thorough": 5000}}
+          "dynamic_child_scheduler_requests_honoured": {"quick": 300, "thorough": 5000},
+          "wall_clock_alarms_judged": {"quick": 30, "thorough": 400}, "wall_clock_delay_alarms_requested_while_lagging": {"quick": 15, "thorough": 200}}
 BATCH = 25
 
 ALPHABET = ([f"s{d}{t}" for d in (-1, 0, 1, 2, 3) for t in ("", "@a", "@b")] + [f"n{d}{t}" for d in (-1, 0, 1) for t in ("", "@a")]
@@ -183,9 +184,35 @@ def unit_phase(tier, seed):
     os.unlink(op_)
     nat = native_phase(exe, rng, tier, seed, d)
     viol += nat["violations"]
+    wall = wall_clock_phase(rng, tier, seed)
+    viol += wall["violations"]
+    nat["counters"].update(wall["counters"])
     return {"violations": viol, "counters": {"unit_sequences": len(seqs), "unit_queries": nq, **nat["counters"]},
             "coverage": {"exhaustive_up_to_length": maxlen, "exhaustive_sequences": exhaustive, "alphabet": ALPHABET,
                          "random_long_sequences": len(seqs) - exhaustive, "exhaustive": True}}
+
+
+def wall_clock_phase(rng, tier, seed):
+    """'never earlier than requested' for WALL-CLOCK alarms (absolute and as a delay), requested on a real-time executor whose cycle
+    lags the wall clock: the alarm counts from the later of the cycle's time and the wall clock. Runs the real-time timers
+    harness and the C17 oracle (never early, delivered) on scenarios made of wall-clock alarms only."""
+    from .rt import Scenario, run_scenarios
+    from . import c17
+    exe = ensure_build("hgrt")
+    scs = []
+    for k in range(scaled(30 if tier == "quick" else 400)):
+        timers = [f"{rng.choice(['wrel', 'wrel', 'wall'])}:{rng.choice([300, 2000, 9000, 20000])}" for _ in range(rng.choice([1, 2, 3]))]
+        kv = dict(kind="timers", timers=";".join(timers), end_ms=rng.choice([60, 120]), start_past_ms=rng.choice([0, 5, 15, 30]),
+                  stop="none", seed=rng.randrange(1 << 30))
+        scs.append(Scenario(f"c18w_{seed}_{k}", kv))
+    viol, C = [], {"wall_clock_alarms_judged": 0, "wall_clock_delay_alarms_requested_while_lagging": 0}
+    for sc, tr, rc, err, secs in run_scenarios(exe, scs, f"C18w.{tier}.{seed}", workers=8):
+        V, Cs, verdict = c17.check(sc, tr, rc)
+        C["wall_clock_alarms_judged"] += Cs.get("requests_honoured", 0)
+        C["wall_clock_delay_alarms_requested_while_lagging"] += Cs.get("relative_wall_alarms_requested_while_lagging", 0)
+        if verdict == "violation" and len(viol) < 5:
+            viol.append((sc.name, Violation(f"real-time scenario {sc.kv}: {V[0]}"), {"scenario": sc.kv}))
+    return {"violations": viol, "counters": C}
 
 
 def gen_graph_case(rng, name):
